@@ -462,6 +462,8 @@ def session_rules(rng, cfg, sess, ue, n_qers=None, far_action=None, af_shape=Non
         qers.append(rand_qer(rng, 3, rng.choice([0, 1, 2])))
     act = far_action if far_action is not None else rng.choice([2, 2, 2, 1, 4, 6, 12, 3])
     gnb = gnb if gnb is not None else rng.choice(ADDRS[1:] + [rng.getrandbits(32)])
+    if teid is None and not act & 2 and rng.random() < 0.75:
+        teid = 0            # a FAR that does not forward normally carries no outer header (else the plug-in refuses: no tunnel peer)
     fars = [{"id": 1, "dst_intf": 1, "action": rng.choice([2, 2, 1]), "tun_dst": 0, "teid": 0, "port": 0},
             {"id": 2, "dst_intf": 0, "action": act, "tun_dst": gnb, "teid": rng.choice(TEIDS) if teid is None else teid,
              "port": rng.choice([2152, 2152, 0, 1, 65535])}]
